@@ -10,7 +10,7 @@ from vlib import clist, cpair, log
 
 PID = "C13"
 PROPS = "C13_Props.v"
-TARGETS = ["C13_Props.vo", "C13_Check.vo", "C13_Inv.vo", "C13_EpProofs.vo", "C13_EpTuples.vo", "C13_EpFine.vo", "C13_EpFineWit.vo", "C13_TrFine.vo", "C13_TrFineProofs.vo", "C13_Ingress.vo", "C13_IngressProofs.vo", "C13_IngressCor.vo"]
+TARGETS = ["C13_Props.vo", "C13_Check.vo", "C13_Inv.vo", "C13_EpProofs.vo", "C13_EpTuples.vo", "C13_EpFine.vo", "C13_EpFineWit.vo", "C13_TrFine.vo", "C13_TrFineProofs.vo", "C13_Ingress.vo", "C13_IngressProofs.vo", "C13_IngressCor.vo", "C13_TrGen.vo", "C13_TrGenProofs.vo"]
 HARNESS = ["control/common_test.go", "control/c13_test.go"]
 F7_MATCHER = "C13/idle-gc-claim-without-recheck"
 F14_MATCHER = "C13/overflow-pop-overtakes-channel"
@@ -79,7 +79,18 @@ def translate():
         raise RuntimeError("anchor moved: hand-out of the slot buffer in Take")
     take_clears = bool(re.search(r"defer func\(\) \{[^}]*slot\.buf = nil", tbody)) or ("slot.buf = nil" in tbody[hand:])
     ingress_guard = bool(re.search(r"if slot\.buf == nil \{", tbody))
-    text = ("(* GENERATED by tools/c13.py from control/udp_task_pool.go, udp_conn_state_tracker.go, udp_endpoint_pool.go, udp_ingress_batch.go — do not edit. *)\n"
+    csrc = open(os.path.join(vlib.REPO, "control", "control_plane_core.go")).read()
+    gt = re.search(r"func \(c \*controlPlaneCore\) getUdpConnStateTracker\(\) \*udpConnStateTracker \{(.*?)\n\}\n", csrc, re.S)
+    if not gt:
+        raise RuntimeError("anchor moved: controlPlaneCore.getUdpConnStateTracker()")
+    gbody = gt.group(1)
+    cached = gbody.find("c.udpConnStateTracker.Load(); tracker != nil")
+    acq = gbody.find("acquireSharedUdpConnStateTracker(")
+    if cached < 0:
+        raise RuntimeError("anchor moved: cached tracker load in getUdpConnStateTracker()")
+    after_cached = gbody.find("}", cached)
+    core_reacquires = acq > after_cached and "return nil" not in gbody[after_cached:acq]
+    text = ("(* GENERATED by tools/c13.py from control/udp_task_pool.go, udp_conn_state_tracker.go, udp_endpoint_pool.go, udp_ingress_batch.go, control_plane_core.go — do not edit. *)\n"
             "From Coq Require Import ZArith.\n"
             "Definition udp_task_queue_length : nat := %d.\n"
             "Definition refs_sentinel : Z := (%d)%%Z.\n"
@@ -88,14 +99,16 @@ def translate():
             "Definition retain_rechecks_after_wait : bool := %s.\n"
             "Definition remove_checks_identity : bool := %s.\n"
             "Definition take_clears_buf : bool := %s.\n"
-            "Definition ingress_guard_on_buf : bool := %s.\n" % (qlen, sentinel, "true" if recheck else "false",
+            "Definition ingress_guard_on_buf : bool := %s.\n"
+            "Definition closed_core_reacquires_tracker : bool := %s.\n" % (qlen, sentinel, "true" if recheck else "false",
                                                                  "true" if pop_recheck else "false",
                                                                  "true" if retain_recheck else "false",
                                                                  "true" if remove_identity else "false",
                                                                  "true" if take_clears else "false",
-                                                                 "true" if ingress_guard else "false"))
+                                                                 "true" if ingress_guard else "false",
+                                                                 "true" if core_reacquires else "false"))
     vlib.write_if_changed(os.path.join(vlib.COQ, "gen", "C13_Consts.v"), text)
-    return {"queue_length": qlen, "sentinel": sentinel, "recheck": recheck, "pop_overflow_rechecks_channel": pop_recheck, "retain_rechecks_after_wait": retain_recheck, "remove_checks_identity": remove_identity, "take_clears_buf": take_clears, "ingress_guard_on_buf": ingress_guard}
+    return {"queue_length": qlen, "sentinel": sentinel, "recheck": recheck, "pop_overflow_rechecks_channel": pop_recheck, "retain_rechecks_after_wait": retain_recheck, "remove_checks_identity": remove_identity, "take_clears_buf": take_clears, "ingress_guard_on_buf": ingress_guard, "closed_core_reacquires_tracker": core_reacquires}
 
 
 
@@ -340,7 +353,7 @@ def parse_pairs_lists(outtxt, name, n):
 
 
 def run_pool_batch(sc, binary, cases, tag, retry=True):
-    results, herr = run_scheduled(sc, binary, "TestVerifC13", cases, tag, 900)
+    results, herr = run_scheduled(sc, binary, "TestVerifC13", cases, tag, 600)
     if herr:
         return None, None, None, herr
     errors = {}
@@ -724,7 +737,7 @@ def fine_attributable(case, res):
 
 
 def run_fine_batch(sc, binary, cases, tag, retry=True):
-    results, herr = run_scheduled(sc, binary, "TestVerifC13EndpointFine", cases, tag, 600)
+    results, herr = run_scheduled(sc, binary, "TestVerifC13EndpointFine", cases, tag, 300)
     if herr:
         return None, None, None, herr
     errors = {}
@@ -823,7 +836,7 @@ def tfine_case_to_coq(case, res):
 
 
 def run_tfine_batch(sc, binary, cases, tag, retry=True):
-    results, herr = run_scheduled(sc, binary, "TestVerifC13TrackerFine", cases, tag, 600)
+    results, herr = run_scheduled(sc, binary, "TestVerifC13TrackerFine", cases, tag, 150)
     if herr:
         return None, None, None, herr
     errors = {}
@@ -1014,6 +1027,154 @@ def shrink_ingress(sc, binary, case):
         cur = cands[f[0]]
     return cur
 
+
+# ------------------------------------------------------------------------------------------------
+# generations sharing the conn-state tracker across a reload hand-over
+# ------------------------------------------------------------------------------------------------
+def gen_trgen_case(rng, big=False):
+    """disciplined histories: a generation is closed only while another open one exists on its BPF object set
+    (or nothing is owned there); transfers stay within one BPF object set; releases only by owners"""
+    bpfs, keys = rng.choice([1, 1, 2]), rng.randint(1, 3)
+    cores = []           # dict(b, closed)
+    owners = []          # (core, tuple)
+    ops = []
+    def new(b):
+        cores.append({"b": b, "closed": False})
+        ops.append({"kind": "new", "b": b})
+    new(0)
+    for _ in range(rng.randint(3, 40 if big else 22)):
+        r = rng.random()
+        if r < 0.14 or not cores:
+            new(rng.randrange(bpfs))
+        elif r < 0.45:
+            c = rng.randrange(len(cores))
+            k = rng.randrange(keys)
+            if cores[c]["closed"] and not any(not x["closed"] and x["b"] == cores[c]["b"] for x in cores) and \
+               not any(cores[o[0]]["b"] == cores[c]["b"] for o in owners):
+                pass    # retain on a closed generation of a fully shut down BPF object set: allowed by the model too
+            ops.append({"kind": "retain", "c": c, "k": k})
+            owners.append((c, k))
+        elif r < 0.70 and owners:
+            o = owners.pop(rng.randrange(len(owners)))
+            ops.append({"kind": "release", "c": o[0], "k": o[1]})
+        elif r < 0.82 and owners:
+            i = rng.randrange(len(owners))
+            cfrom, k = owners[i]
+            cand = [j for j, x in enumerate(cores) if x["b"] == cores[cfrom]["b"] and j != cfrom]
+            if cand:
+                cto = rng.choice(cand)
+                owners[i] = (cto, k)
+                ops.append({"kind": "transfer", "c": cto, "c2": cfrom, "k": k})
+        else:
+            c = rng.randrange(len(cores))
+            b = cores[c]["b"]
+            others_open = sum(1 for j, x in enumerate(cores) if x["b"] == b and not x["closed"] and j != c)
+            owned = any(cores[o[0]]["b"] == b for o in owners)
+            if cores[c]["closed"] or others_open >= 1 or not owned:
+                cores[c]["closed"] = True
+                ops.append({"kind": "close", "c": c})
+    # forced retirement tail: every remaining owner releases, closed generations included
+    rng.shuffle(owners)
+    for o in owners:
+        ops.append({"kind": "release", "c": o[0], "k": o[1]})
+    return {"bpfs": bpfs, "keys": keys, "ops": ops}
+
+
+def trgen_case_to_coq(case, res):
+    steps = []
+    for op, st in zip(case["ops"], res["steps"]):
+        kd = op["kind"]
+        if kd == "new":
+            o = "(GNew %d)" % op["b"]
+        elif kd == "close":
+            o = "(GClose %d)" % op["c"]
+        elif kd == "retain":
+            o = "(GRetain %d %d)" % (op["c"], op["k"])
+        elif kd == "release":
+            o = "(GRelease %d %d)" % (op["c"], op["k"])
+        else:
+            o = "(GTransfer %d %d %d)" % (op["c"], op["c2"], op["k"])
+        reg = clist(["None" if r[0] < 0 else "(Some %d)" % r[0] for r in st["reg"]])
+        ents = clist(["tp %d %d %d" % (e[0], e[1], e[2] if not e[3] else 7777) for e in st["entries"]])
+        steps.append("mkGO %s %s %s" % (o, reg, ents))
+    return "(mkGCase %d %d [\n  %s])" % (case["bpfs"], case["keys"], ";\n  ".join(steps))
+
+
+def run_trgen_batch(sc, binary, cases, tag):
+    inp, outp = sc.path("c13g_%s.in" % tag), sc.path("c13g_%s.out" % tag)
+    with open(inp, "w") as f:
+        for c in cases:
+            f.write(json.dumps(c) + "\n")
+    rc, so, se, dt = vlib.run_go_harness(binary, "TestVerifC13TrackerGen", inp, outp, timeout=300)
+    if rc != 0:
+        return None, None, "generation harness failed rc=%d: %s %s" % (rc, so[-1500:], se[-1500:])
+    results = [json.loads(l) for l in open(outp)]
+    terms = [trgen_case_to_coq(c, r) if not r.get("panic") else "(mkGCase 1 1 [])" for c, r in zip(cases, results)]
+    text = ("From Coq Require Import List Arith Bool ZArith.\nFrom Dae Require Import C13_Spec C13_Model C13_TrGen C13_Check.\n"
+            "Import ListNotations.\n"
+            "Definition cases : list gcase := [\n" + ";\n".join(terms) + "\n].\n"
+            "Definition R := Eval vm_compute in map gcheck_case cases.\nPrint R.\n"
+            "Definition S := Eval vm_compute in map gcase_signature cases.\nPrint S.\n")
+    ok, outtxt = vlib.coq_eval("C13_gcases_%s_%d" % (tag, os.getpid()), text)
+    if not ok:
+        return None, None, "coq evaluation (generations) failed: " + outtxt[-2500:]
+    per = parse_pairs_lists(outtxt, "R", len(cases))
+    if per is None:
+        return None, None, "cannot parse coq output (generations): " + outtxt[:600]
+    errors = {i: e for i, e in enumerate(per) if e}
+    for i, r in enumerate(results):
+        if r.get("panic"):
+            errors[i] = [(0, 2)]
+    m2 = re.search(r"S\s*=\s*(.*?)\n\s*:\s*list", outtxt, re.S)
+    sigs = re.findall(r"\((\d+),(\d+),(\d+)\)", re.sub(r"\s+", "", m2.group(1))) if m2 else []
+    return errors, sigs, None
+
+
+def shrink_trgen(sc, binary, case):
+    """drop operations while the history stays failing; candidates that are no longer well formed (a release or
+    transfer without its retain, a close of the last open generation with owners) are skipped"""
+    def well_formed(c):
+        cores, owners = [], []
+        for op in c["ops"]:
+            k = op["kind"]
+            if k == "new":
+                cores.append({"b": op["b"], "closed": False})
+            elif k in ("close", "retain", "release") and op["c"] >= len(cores):
+                return False
+            elif k == "retain":
+                owners.append((op["c"], op["k"]))
+            elif k == "release":
+                if (op["c"], op["k"]) not in owners:
+                    return False
+                owners.remove((op["c"], op["k"]))
+            elif k == "transfer":
+                if op["c"] >= len(cores) or op["c2"] >= len(cores) or (op["c2"], op["k"]) not in owners or cores[op["c"]]["b"] != cores[op["c2"]]["b"]:
+                    return False
+                owners.remove((op["c2"], op["k"]))
+                owners.append((op["c"], op["k"]))
+            elif k == "close":
+                c0 = op["c"]
+                b = cores[c0]["b"]
+                others = sum(1 for j, x in enumerate(cores) if x["b"] == b and not x["closed"] and j != c0)
+                if not cores[c0]["closed"] and others == 0 and any(cores[o[0]]["b"] == b for o in owners):
+                    return False
+                cores[c0]["closed"] = True
+        return True
+    cur = case
+    for _ in range(10):
+        cands = [dict(cur, ops=cur["ops"][:i] + cur["ops"][i + 1:]) for i in range(len(cur["ops"]))]
+        cands = [c for c in cands if well_formed(c)]
+        if not cands:
+            break
+        errs, _, err = run_trgen_batch(sc, binary, cands, "shrink")
+        if err:
+            break
+        f = [i for i in range(len(cands)) if i in errs and any(c == 2 for _, c in errs[i])]
+        if not f:
+            break
+        cur = cands[f[0]]
+    return cur
+
 # ------------------------------------------------------------------------------------------------
 def main(argv):
     args = vlib.main_args(argv)
@@ -1120,7 +1281,12 @@ def main(argv):
         idir = os.path.join(vlib.VERIF, "corpus", PID, "ingress")
         icorpus = [json.load(open(os.path.join(idir, n))) for n in sorted(os.listdir(idir)) if n.endswith(".json")] if os.path.isdir(idir) else []
         icases = icorpus + [gen_ingress_case(rng, big=(not quick and i % 3 == 0)) for i in range(n_in)]
-        pool_exec = concurrent.futures.ThreadPoolExecutor(max_workers=5)
+        n_gen = 100 if quick else 2500
+        gdir = os.path.join(vlib.VERIF, "corpus", PID, "generations")
+        gcorpus = [json.load(open(os.path.join(gdir, n))) for n in sorted(os.listdir(gdir)) if n.endswith(".json")] if os.path.isdir(gdir) else []
+        gcases = gcorpus + [gen_trgen_case(rng, big=(not quick and i % 3 == 0)) for i in range(n_gen)]
+        pool_exec = concurrent.futures.ThreadPoolExecutor(max_workers=6)
+        fut_g = pool_exec.submit(run_trgen_batch, sc, binary, gcases, "g0")
         fut_i = pool_exec.submit(run_ingress_batch, sc, binary, icases, "i0")
         fut_tf = pool_exec.submit(run_tfine_batch, sc, binary, tfcases, "tf0")
         fut_f = pool_exec.submit(run_fine_batch, sc, binary, fcases, "f0")
@@ -1256,7 +1422,34 @@ def main(argv):
         ferrs, fsigs, fresults, ferr = fut_f.result()
         tferrs, tfsigs, tfresults, tferr = fut_tf.result()
         ierrs, isigs, ierr = fut_i.result()
+        gerrs, gsigs, gerr = fut_g.result()
         pool_exec.shutdown()
+        g_spec, g_model = [], []
+        if gerr:
+            tie_broken = (tie_broken or "") + " | " + gerr
+            gsigs = []
+        else:
+            g_spec = sorted(i for i, e in gerrs.items() if any(c == 2 for _, c in e))
+            g_model = sorted(i for i, e in gerrs.items() if any(c in (1, 3) for _, c in e) and i not in g_spec)
+            if g_model and not g_spec:
+                extra = [gen_trgen_case(rng, big=True) for _ in range(10 * n_gen)]
+                e2, _, err2 = run_trgen_batch(sc, binary, extra, "gw")
+                if not err2:
+                    for i, e in e2.items():
+                        gerrs[len(gcases) + i] = e
+                        if any(c == 2 for _, c in e):
+                            g_spec.append(len(gcases) + i)
+                    gcases += extra
+            if g_spec:
+                i = min(g_spec, key=lambda j: len(gcases[j]["ops"]))
+                small = shrink_trgen(sc, binary, gcases[i])
+                out.violation("impl_vs_spec_tracker_generations", {"case": small, "errors": gerrs[i], "failing_cases": len(g_spec),
+                                                                  "how": "feed the case to TestVerifC13TrackerGen: new b = a generation (controlPlaneCore) on BPF object set b, close c = core.Close() "
+                                                                         "(forced retirement), retain/release c k = an endpoint owned by generation c registers / drops tuple k through the core's "
+                                                                         "entry points, transfer c c2 k = adoption; (n,2): after operation n the shared tracker's entry of a tuple does not count "
+                                                                         "the live owners among all generations of its BPF object set"},
+                              "kernel tuple ownership is not kept across generations: after a generation was closed an entry no longer counts its live owners "
+                              "(%d failing histories)" % len(g_spec))
         i_spec, i_model = [], []
         if ierr:
             tie_broken = (tie_broken or "") + " | " + ierr
@@ -1380,7 +1573,7 @@ def main(argv):
                                                         "how": "feed the case to TestVerifC13Endpoint: after call n the returned endpoint / dial count / transport close calls / "
                                                                "pool entry / kernel tuple owners / drain tickets differ from the reference machine of C13_Spec.v part 3"},
                               "endpoint pool hands out, dials, closes or releases differently from the property's reference machine (%d failing histories)" % len(e_spec_fail))
-        if (not proof_ok or tie_broken or xerr or model_fail or mspec_fail or t_model_fail or e_model_fail or f_model or tf_model or i_model) and not (other_spec or t_spec_fail or e_spec_fail or f_spec or tf_spec or i_spec):
+        if (not proof_ok or tie_broken or xerr or model_fail or mspec_fail or t_model_fail or e_model_fail or f_model or tf_model or i_model or g_model) and not (other_spec or t_spec_fail or e_spec_fail or f_spec or tf_spec or i_spec or g_spec):
             what = {}
             if xerr:
                 what["translator"] = xerr
@@ -1393,6 +1586,8 @@ def main(argv):
                 what["correspondence_case"] = {"case": cases[j], "errors": all_err[j]}
             if mspec_fail:
                 what["model_vs_spec_case"] = {"case": cases[mspec_fail[0]], "errors": all_err[mspec_fail[0]]}
+            if g_model:
+                what["generations_correspondence_case"] = {"case": gcases[g_model[0]], "errors": gerrs[g_model[0]]}
             if i_model:
                 what["ingress_correspondence_case"] = {"case": icases[i_model[0]], "errors": ierrs[i_model[0]]}
             if tf_model:
@@ -1413,9 +1608,9 @@ def main(argv):
         enontriv = set(x for x in esigs if int(x[0]) >= 2 and (int(x[1]) > 0 or int(x[2]) > 0))
         fnontriv = set(x for x in fsigs if int(x[0]) >= 2 and int(x[2]) >= 1)
         tfnontriv = set(x for x in tfsigs if int(x[0]) >= 1 and int(x[1]) >= 1)
-        cov.update(evaluations=n_eval + len(tcases) + len(ecases) + len(fcases) + len(tfcases) + len(icases),
+        cov.update(evaluations=n_eval + len(tcases) + len(ecases) + len(fcases) + len(tfcases) + len(icases) + len(gcases),
                    distinct_nontrivial=len(nontriv) + len(tnontriv) + len(enontriv) + len(fnontriv) + len(tfnontriv) + len(set(x for x in isigs if int(x[0]) >= 2 and int(x[1]) >= 1)),
-                   distinct_signatures=len(set(sigs)) + (len(set(tsigs)) if not terr else 0) + len(set(esigs)) + len(set(fsigs)) + len(set(tfsigs)) + len(set(isigs)),
+                   distinct_signatures=len(set(sigs)) + (len(set(tsigs)) if not terr else 0) + len(set(esigs)) + len(set(fsigs)) + len(set(tfsigs)) + len(set(isigs)) + len(set(gsigs)),
                    rule="task pool: random command lists (named / any / prefer-producer / prefer-task / prefer-convoy releases; 2-12 producers over 1-3 flow keys; channel capacity 1-3, "
                         "and the real capacity with 128..131 producers) followed by a canonical drain; signature = (queues created, queues claimed, tasks accepted, tasks lost at rest, "
                         "cross-flow starts) from the model run; non-trivial = at least two queues or a loss or a cross-flow start. tracker: random retain/release/forget/transfer batches "
@@ -1431,10 +1626,10 @@ def main(argv):
                         "ingress batch reader: 1-3 slots, batches of 0..slots+1 datagrams (15% without a valid source address), takes (mostly all delivered slots, also stray indices), task runs "
                         "delayed so that later batches arrive in the same slot while the earlier packet's task is pending, closes; signature = (tasks, reads with a pending task, invalid-address takes); "
                         "non-trivial = two tasks and a read with a pending task",
-                   traces_validated_against_impl=(n_eval - len(model_fail)) + (len(tcases) - len(t_model_fail)) + (len(ecases) - len(e_spec_fail) - len(e_model_fail)) + (len(fcases) - len(f_model)) + (len(tfcases) - len(tf_model)) + (len(icases) - len(i_model)),
+                   traces_validated_against_impl=(n_eval - len(model_fail)) + (len(tcases) - len(t_model_fail)) + (len(ecases) - len(e_spec_fail) - len(e_model_fail)) + (len(fcases) - len(f_model)) + (len(tfcases) - len(tf_model)) + (len(icases) - len(i_model)) + (len(gcases) - len(g_model)),
                    comparisons="per command: resolved thread, parked set, events impl = model; whole history: impl vs spec (safety + completeness at rest), model vs spec; "
                                "tracker per call: kernel deletes impl = model = spec, entry table impl = model; endpoint pool per call: impl = code-shaped model (C13_EpModel) = reference machine of the spec, all three ways",
-                   pool_cases=n_eval, tracker_cases=len(tcases), endpoint_cases=len(ecases), endpoint_fine_schedules=len(fcases), tracker_thread_schedules=len(tfcases), ingress_histories=len(icases), endpoint_fine_creation_window_hits=len(f_known),
+                   pool_cases=n_eval, tracker_cases=len(tcases), endpoint_cases=len(ecases), endpoint_fine_schedules=len(fcases), tracker_thread_schedules=len(tfcases), ingress_histories=len(icases), generation_histories=len(gcases), endpoint_fine_creation_window_hits=len(f_known),
                    schedules_hitting_idle_gc_race=len(f7_cases), schedules_hitting_overflow_overtake=len(f14_cases), timing_retries=STATS.get("timing_retries", 0), retried_settle_timeouts=STATS["retried_settle_timeouts"], unresolved_settle_timeouts=STATS["unresolved_settle_timeouts"],
                    samples=[sample, tcases[0], ecases[0]],
                    widened_search=widened)
